@@ -82,6 +82,79 @@ Proof.
   intros sc (t & k & Hin & Hc & Hme & H). exists t, k. repeat split; auto.
 Qed.
 
+(* two global states that differ at most in the allow-lists of channel objects (and the delivery lists cached from
+   them, which are up to date in the second) *)
+Definition same_but_acl (g g' : gst) : Prop :=
+  next_oid g' = next_oid g /\ cmap g' = cmap g /\ idx g' = idx g /\ reg g' = reg g /\ wl g' = wl g /\ cuser g' = cuser g /\
+  (forall o, members (objs g' o) = members (objs g o)) /\
+  (forall o, owner (objs g' o) = owner (objs g o)) /\
+  (forall o, targets (objs g' o) = filter (allowed (racl (objs g' o))) (members (objs g' o))).
+
+Lemma same_but_acl_refl g :
+  (forall o, targets (objs g o) = filter (allowed (racl (objs g o))) (members (objs g o))) -> same_but_acl g g.
+Proof. intros H. repeat split; auto. Qed.
+
+(* an object is replaced by one with the same members and owner and an up-to-date delivery list *)
+Lemma same_but_acl_put_obj g o b :
+  (forall o, targets (objs g o) = filter (allowed (racl (objs g o))) (members (objs g o))) ->
+  members b = members (objs g o) -> owner b = owner (objs g o) ->
+  targets b = filter (allowed (racl b)) (members b) ->
+  same_but_acl g (put_obj g o b).
+Proof.
+  intros Ht Hm Ho Hb. unfold same_but_acl, put_obj, set_objs.
+  cbn [objs next_oid cmap idx reg wl cuser]. unfold upd.
+  repeat split; try reflexivity; intros o0; destruct (N.eqb_spec o0 o) as [->|ne]; auto.
+Qed.
+
+Lemma same_but_acl_set_acl g o ty a :
+  (forall o, targets (objs g o) = filter (allowed (racl (objs g o))) (members (objs g o))) ->
+  same_but_acl g (put_obj g o (obj_set_acl (objs g o) ty a)).
+Proof. intros Ht. apply same_but_acl_put_obj; auto. Qed.
+
+Lemma task_ok_frame g g' t k : same_but_acl g g' -> task_ok g t k -> task_ok g' t k.
+Proof.
+  intros (Hn & Hc & Hi & Hr & Hw & Hu & Hm & Ho & Ht) [H1 H2]. unfold task_ok.
+  rewrite Hu. split; [exact H1|].
+  destruct (t_pc k); auto; unfold is_owner; rewrite ?Hc, ?Hm, ?Hw, ?Hn, ?Ho; exact H2.
+Qed.
+
+(* the global state changes at most in allow-lists; clean-up tasks stay *)
+Lemma CInv_frame s s' :
+  same_but_acl (cg s) (cg s') ->
+  same_cleanups (tasks s) (tasks s') ->
+  (NoDup (map fst (tasks s')) /\ forall t k, In (t, k) (tasks s') -> t < next_tid s') ->
+  (forall o t, wl (cg s) o = Some t -> exists k, In (t, k) (tasks s') /\ holds (t_pc k) = Some o) ->
+  (forall t k, In (t, k) (tasks s') -> task_ok (cg s) t k) ->
+  (forall t k ch o n id, In (t, k) (tasks s') -> t_pc k = PJoinNotify ch o false n id ->
+                         is_owner (objs (cg s) o) n = false) ->
+  CInv s -> CInv s'.
+Proof.
+  intros F sc Htids Hlock Htasks Hguest I.
+  pose proof F as (Hn & Hc & Hi & Hr & Hw & Hu & Hm & Ho & Ht).
+  destruct I.
+  constructor; unfold is_listed, is_member in *.
+  - intros o. rewrite Hn, Hm, Hw, Hc. auto.
+  - rewrite Hc. exact i_inj.
+  - intros o. rewrite Hm, Hc. auto.
+  - intros ch o. rewrite Hm, Hc. eauto.
+  - intros ch o. rewrite Hm, Ho, Hc. eauto.
+  - intros o. rewrite Hm. auto.
+  - exact Ht.
+  - rewrite Hi. exact i_nodup_idx.
+  - rewrite Hr. exact i_nodup_reg.
+  - rewrite Hr, Hu. exact i_reg_cuser.
+  - intros u ch. rewrite Hi, Hc. intros H. destruct (i_listed_member u ch H) as (o & H1 & H2).
+    exists o. rewrite Hm. auto.
+  - intros u ch o. rewrite Hm, Hi, Hc. intros H1 H2.
+    destruct (i_member_listed u ch o H1 H2) as [H|H]; [left; exact H|right]. eapply covered_mono; eauto.
+  - intros u ch o. rewrite Hm, Hr, Hc. intros H1 H2.
+    destruct (i_member_connected u ch o H1 H2) as [H|H]; [left; exact H|right]. eapply covered_mono; eauto.
+  - exact Htids.
+  - rewrite Hw. exact Hlock.
+  - intros t k Hin. eapply task_ok_frame; eauto.
+  - intros t k ch o n id Hin Hpc. unfold is_owner. rewrite Ho. eapply Hguest; eauto.
+Qed.
+
 (* every clause of the invariant that does not speak about the task list *)
 Lemma CInv_same_global s s' :
   cg s' = cg s ->
@@ -93,12 +166,8 @@ Lemma CInv_same_global s s' :
                          is_owner (objs (cg s) o) n = false) ->
   CInv s -> CInv s'.
 Proof.
-  intros eg sc Htids Hlock Htasks Hguest I. destruct I.
-  constructor; rewrite ?eg; auto.
-  - intros u ch o Hm Hi. destruct (i_member_listed u ch o Hm Hi) as [H|H]; [left; exact H|right].
-    eapply covered_mono; eauto.
-  - intros u ch o Hm Hi. destruct (i_member_connected u ch o Hm Hi) as [H|H]; [left; exact H|right].
-    eapply covered_mono; eauto.
+  intros eg sc Htids Hlock Htasks Hguest I.
+  apply (CInv_frame s); auto. rewrite eg. apply same_but_acl_refl. apply (i_targets _ I).
 Qed.
 
 (* a pc without a lock and without a task-local obligation in [task_ok] *)
@@ -125,14 +194,15 @@ Proof.
   destruct p; try exact I; destruct Hp.
 Qed.
 
-(* a request task whose old and new pc hold no lock moves to the new pc *)
-Lemma CInv_set_pc s t k c p :
-  CInv s -> tlookup t (tasks s) = Some k -> t_conn k = Some c -> holds (t_pc k) = None -> plain_pc p ->
-  CInv {| cg := cg s; tasks := tset t (with_pc k p) (tasks s); next_tid := next_tid s |}.
+(* a request task whose old and new pc hold no lock moves to the new pc (and at most allow-lists change) *)
+Lemma CInv_frame_set_pc s g' t k c p :
+  CInv s -> same_but_acl (cg s) g' ->
+  tlookup t (tasks s) = Some k -> t_conn k = Some c -> holds (t_pc k) = None -> plain_pc p ->
+  CInv {| cg := g'; tasks := tset t (with_pc k p) (tasks s); next_tid := next_tid s |}.
 Proof.
-  intros I Hl Hc Hh Hp.
+  intros I F Hl Hc Hh Hp.
   pose proof (i_tids _ I) as [nd lt].
-  apply (CInv_same_global s); cbn [cg tasks next_tid]; auto.
+  apply (CInv_frame s); cbn [cg tasks next_tid]; auto.
   - intros t' k' Hn Hin. apply In_tset_other; [exact Hin|].
     intros ->. rewrite (In_unique _ _ _ _ nd Hl Hin) in Hn. congruence.
   - split; [rewrite map_fst_tset; exact nd|].
@@ -149,14 +219,22 @@ Proof.
     + eapply (i_join_guest _ I); eauto.
 Qed.
 
-(* a request task that holds no lock goes away *)
-Lemma CInv_remove s t k c :
-  CInv s -> tlookup t (tasks s) = Some k -> t_conn k = Some c -> holds (t_pc k) = None ->
-  CInv {| cg := cg s; tasks := tremove t (tasks s); next_tid := next_tid s |}.
+Lemma CInv_set_pc s t k c p :
+  CInv s -> tlookup t (tasks s) = Some k -> t_conn k = Some c -> holds (t_pc k) = None -> plain_pc p ->
+  CInv {| cg := cg s; tasks := tset t (with_pc k p) (tasks s); next_tid := next_tid s |}.
 Proof.
-  intros I Hl Hc Hh.
+  intros I. eapply CInv_frame_set_pc; eauto. apply same_but_acl_refl. apply (i_targets _ I).
+Qed.
+
+(* a request task that holds no lock goes away (and at most allow-lists change) *)
+Lemma CInv_frame_remove s g' t k c :
+  CInv s -> same_but_acl (cg s) g' ->
+  tlookup t (tasks s) = Some k -> t_conn k = Some c -> holds (t_pc k) = None ->
+  CInv {| cg := g'; tasks := tremove t (tasks s); next_tid := next_tid s |}.
+Proof.
+  intros I F Hl Hc Hh.
   pose proof (i_tids _ I) as [nd lt].
-  apply (CInv_same_global s); cbn [cg tasks next_tid]; auto.
+  apply (CInv_frame s); cbn [cg tasks next_tid]; auto.
   - intros t' k' Hn Hin. apply In_tremove. split; [exact Hin|].
     intros ->. rewrite (In_unique _ _ _ _ nd Hl Hin) in Hn. congruence.
   - split; [apply NoDup_map_fst_tremove; exact nd|].
@@ -170,17 +248,34 @@ Proof.
     eapply (i_join_guest _ I); eauto.
 Qed.
 
-(* a request task runs a segment that leaves the global state alone and ends in PDone or at a pc without a lock *)
+Lemma CInv_remove s t k c :
+  CInv s -> tlookup t (tasks s) = Some k -> t_conn k = Some c -> holds (t_pc k) = None ->
+  CInv {| cg := cg s; tasks := tremove t (tasks s); next_tid := next_tid s |}.
+Proof.
+  intros I. eapply CInv_frame_remove; eauto. apply same_but_acl_refl. apply (i_targets _ I).
+Qed.
+
+(* a request task runs a segment that changes at most allow-lists and ends in PDone or at a pc without a lock *)
+Lemma CInv_after_seg_frame s g' t k c p os hint :
+  CInv s -> same_but_acl (cg s) g' ->
+  tlookup t (tasks s) = Some k -> t_conn k = Some c -> holds (t_pc k) = None ->
+  p = PDone \/ plain_pc p ->
+  CInv (after_seg s t k (g', p, os) hint).
+Proof.
+  intros I F Hl Hc Hh [->|Hp]; unfold after_seg.
+  - unfold settle. rewrite Hc. eapply CInv_frame_remove; eauto.
+  - replace (settle t k p hint (tasks s)) with (tset t (with_pc k p) (tasks s)).
+    + eapply CInv_frame_set_pc; eauto.
+    + destruct p; try reflexivity. destruct Hp.
+Qed.
+
+(* ... that leaves the global state alone *)
 Lemma CInv_after_seg_same s t k c p os hint :
   CInv s -> tlookup t (tasks s) = Some k -> t_conn k = Some c -> holds (t_pc k) = None ->
   p = PDone \/ plain_pc p ->
   CInv (after_seg s t k (cg s, p, os) hint).
 Proof.
-  intros I Hl Hc Hh [->|Hp]; unfold after_seg.
-  - unfold settle. rewrite Hc. eapply CInv_remove; eauto.
-  - replace (settle t k p hint (tasks s)) with (tset t (with_pc k p) (tasks s)).
-    + eapply CInv_set_pc; eauto.
-    + destruct p; try reflexivity. destruct Hp.
+  intros I. eapply CInv_after_seg_frame; eauto. apply same_but_acl_refl. apply (i_targets _ I).
 Qed.
 
 (* ---------- broadcast and the listings ---------- *)
@@ -190,7 +285,8 @@ Lemma seg_other_shape cf t tc me g p ok hint :
   exists p' os, seg cf t tc me g p ok hint = (g, p', os) /\ (p' = PDone \/ plain_pc p').
 Proof.
   assert (BR : forall ch o pl id, exists p' os, bcast_read tc me g ch o pl id = (g, p', os) /\ (p' = PDone \/ plain_pc p')).
-  { intros. unfold bcast_read. destruct (negb _); eexists _, _; (split; [reflexivity|left; reflexivity]). }
+  { intros. unfold bcast_read. destruct (negb _); [|destruct (negb _)];
+      eexists _, _; (split; [reflexivity|left; reflexivity]). }
   assert (BL : forall ch pl id, exists p' os, bcast_lookup tc me g ch pl id = (g, p', os) /\ (p' = PDone \/ plain_pc p')).
   { intros. unfold bcast_lookup. destruct (cmap g ch) as [o|].
     - destruct (lock_free g o); [apply BR|].
@@ -198,7 +294,9 @@ Proof.
     - eexists _, _; split; [reflexivity|left; reflexivity]. }
   assert (MR : forall o id, exists p' os, members_read tc me g o id = (g, p', os) /\ (p' = PDone \/ plain_pc p')).
   { intros. unfold members_read. destruct (negb _); eexists _, _; (split; [reflexivity|left; reflexivity]). }
-  intros Ho Hd. destruct p as [r| | | | | | | | |]; try destruct r; cbn [other_pc] in Ho; try destruct Ho; cbn [seg].
+  assert (GR : forall o ty id, exists p' os, get_acl_read tc me g o ty id = (g, p', os) /\ (p' = PDone \/ plain_pc p')).
+  { intros. unfold get_acl_read. destruct (negb _); eexists _, _; (split; [reflexivity|left; reflexivity]). }
+  intros Ho Hd. destruct p as [r| | | | | | | | | | |]; try destruct r; cbn [other_pc] in Ho; try destruct Ho; cbn [seg].
   - destruct (fwd_payload cf); [|apply BL].
     eexists _, _; split; [reflexivity|right; exact I].
   - destruct (cmap g ch) as [o|].
@@ -206,10 +304,16 @@ Proof.
       eexists _, _; split; [reflexivity|right; exact I].
     + eexists _, _; split; [reflexivity|left; reflexivity].
   - eexists _, _; split; [reflexivity|left; reflexivity].
+  - destruct (cmap g ch) as [o|].
+    + destruct (lock_free g o); [apply GR|].
+      eexists _, _; split; [reflexivity|right; exact I].
+    + eexists _, _; split; [reflexivity|left; reflexivity].
   - destruct ok; [apply BL|]. eexists _, _; split; [reflexivity|left; reflexivity].
   - destruct (lock_free g o); [apply BR|].
     eexists _, _; split; [reflexivity|right; exact I].
   - destruct (lock_free g o); [apply MR|].
+    eexists _, _; split; [reflexivity|right; exact I].
+  - destruct (lock_free g o); [apply GR|].
     eexists _, _; split; [reflexivity|right; exact I].
   - congruence.
 Qed.
@@ -219,7 +323,7 @@ Lemma other_pc_request g t k :
   task_ok g t k -> other_pc (t_pc k) -> (exists c, t_conn k = Some c) /\ t_pc k <> PDone /\ holds (t_pc k) = None.
 Proof.
   unfold task_ok. intros [H1 H2] Ho.
-  destruct (t_pc k) as [r| | | | | | | | |]; try destruct r; cbn [other_pc] in Ho; try destruct Ho;
+  destruct (t_pc k) as [r| | | | | | | | | | |]; try destruct r; cbn [other_pc] in Ho; try destruct Ho;
     try destruct H2;
     (split; [|split; [discriminate|reflexivity]]);
     (destruct (t_conn k) as [c|]; [exists c; reflexivity|destruct H1 as [_ []]]).
@@ -237,3 +341,51 @@ Proof.
 Qed.
 
 Print Assumptions seg_other_preserves.
+
+(* ---------- allow-list updates ---------- *)
+(* the segment changes at most one allow-list (and the delivery list cached from it) *)
+Lemma seg_acl_shape cf t tc me g p ok hint :
+  (forall o, targets (objs g o) = filter (allowed (racl (objs g o))) (members (objs g o))) ->
+  acl_pc p ->
+  exists g' p' os, seg cf t tc me g p ok hint = (g', p', os) /\ same_but_acl g g' /\ (p' = PDone \/ plain_pc p').
+Proof.
+  intros Ht.
+  pose proof (same_but_acl_refl g Ht) as R.
+  assert (SL : forall o ty adding us id, exists g' p' os,
+             set_acl_locked cf tc me g o ty adding us id = (g', p', os) /\ same_but_acl g g' /\ (p' = PDone \/ plain_pc p')).
+  { intros. unfold set_acl_locked. destruct (negb _); [|destruct (_ <? _)];
+      eexists _, _, _; (split; [reflexivity|split; [|left; reflexivity]]); auto.
+    apply same_but_acl_set_acl; exact Ht. }
+  intros Ha. destruct p as [r| | | | | | | | | | |]; try destruct r; cbn [acl_pc] in Ha; try destruct Ha; cbn [seg].
+  - destruct (cmap g ch) as [o|].
+    + destruct (lock_free g o); [apply SL|].
+      eexists _, _, _; split; [reflexivity|split; [exact R|right; exact I]].
+    + eexists _, _, _; split; [reflexivity|split; [exact R|left; reflexivity]].
+  - destruct (lock_free g o); [apply SL|].
+    eexists _, _, _; split; [reflexivity|split; [exact R|right; exact I]].
+Qed.
+
+(* a task at one of these pcs is a request and holds no lock *)
+Lemma acl_pc_request g t k :
+  task_ok g t k -> acl_pc (t_pc k) -> (exists c, t_conn k = Some c) /\ holds (t_pc k) = None.
+Proof.
+  unfold task_ok. intros [H1 H2] Ha.
+  destruct (t_pc k) as [r| | | | | | | | | | |]; try destruct r; cbn [acl_pc] in Ha; try destruct Ha;
+    (split; [|reflexivity]);
+    (destruct (t_conn k) as [c|]; [exists c; reflexivity|destruct H1 as [_ []]]).
+Qed.
+
+(* an allow-list update (SET_CHAN_ACL) changes one list of one channel object and its cached targets, nothing else *)
+Theorem seg_acl_preserves cf s t k ok hint :
+  fixed cf -> CInv s -> tlookup t (tasks s) = Some k -> acl_pc (t_pc k) ->
+  CInv (after_seg s t k (seg cf t (t_conn k) (t_me k) (cg s) (t_pc k) ok hint) hint).
+Proof.
+  intros _ I Hl Ha.
+  pose proof (i_tasks _ I t k (tlookup_In _ _ _ Hl)) as Hok.
+  destruct (acl_pc_request _ _ _ Hok Ha) as ((c & Hc) & Hh).
+  destruct (seg_acl_shape cf t (t_conn k) (t_me k) (cg s) (t_pc k) ok hint (i_targets _ I) Ha)
+    as (g' & p' & os & -> & F & Hp).
+  eapply CInv_after_seg_frame; eauto.
+Qed.
+
+Print Assumptions seg_acl_preserves.
